@@ -183,8 +183,11 @@ def nested_pairs(fine, coarse):
     return None
 
 
-def oracle(ctx, est, case, total, tag, rep):
-    """the statement of C12 on a trained implementation; `total` = number of samples presented"""
+def oracle(ctx, est, case, total, tag, rep, trained=None):
+    """the statement of C12 on a trained implementation; `total` = number of samples presented; `trained` = the module
+    objects the hierarchy was trained with (default: the public `modules` list -- the two differ only after that list
+    was edited and before the next (re-)fit rebuilds the layers, see modules_list_edited)"""
+    level_modules = list(est.modules) if trained is None else list(trained)
     kind, cls = case["kind"], case["cls"]
     name = {"sup": "DeepARTMAP-sup", "unsup": "DeepARTMAP-unsup", "smart": "SMART"}[kind]
     cov = ctx.cov
@@ -220,7 +223,7 @@ def oracle(ctx, est, case, total, tag, rep):
             bad("column!=layer.labels_a", f"column {l + 1} {L[:, l + 1].tolist()} vs labels_a of layer {l} "
                 f"{list(est.layers[l].labels_a)}")
     off = 1 if kind == "sup" else 0
-    for m_i, m in enumerate(est.modules):
+    for m_i, m in enumerate(level_modules):
         if not np.array_equal(L[:, m_i + off], np.asarray(m.labels_)):
             bad("column!=module.labels_", f"column {m_i + off} {L[:, m_i + off].tolist()} module {m_i} labels_ {list(m.labels_)}")
     if kind == "sup" and not np.array_equal(L[:, 0], case["y"][:total]):
@@ -237,7 +240,7 @@ def oracle(ctx, est, case, total, tag, rep):
     counts = [len(set(L[:, l].tolist())) for l in range(nl + 1)]
     if any(counts[l] > counts[l + 1] for l in range(nl)):
         bad("counts-decrease", f"distinct labels per level {counts}")
-    ncl = [int(m.n_clusters) for m in est.modules]
+    ncl = [int(m.n_clusters) for m in level_modules]
     if ncl != counts[off:]:
         bad("n_clusters!=distinct-labels", f"module category counts {ncl}, distinct labels per level {counts}")
     if any(counts[l] < counts[l + 1] for l in range(nl)):
@@ -751,6 +754,184 @@ def column_targets(ctx, M, nmax):
         cov.hit(f"column-targets:mode={case['mode']}")
 
 
+# ------------------------------------------------------------------ the public `modules` list edited between two fits
+
+# 7 edits x 8 classes x 3 kinds: the quick tier meets every combination once (fall-backs go to replace-finest)
+EDITS = ["replace-finest", "append", "replace-level", "append", "rebind-list", "replace-via-second-host", "remove-finest"]
+CAND_DATA = ["reversed", "permuted", "other", "shorter", "same"]
+
+
+def beyond(cls, rho, pool):
+    """values of the pool strictly beyond rho in the direction of the class's vigilance ladder"""
+    return [p for p in pool if (p < rho if cls == "BayesianART" else p > rho)]
+
+
+def candidate_module(r, case, level, rho, how):
+    """a module of the level's class and hyper-parameters (vigilance rho), trained stand-alone on data of that level"""
+    cls, d, X = case["classes"][level], case["ds"][level], case["Xs"][level]
+    n = len(X)
+    if how == "reversed":
+        Xc = X[::-1].copy()
+    elif how == "permuted":
+        Xc = X[r.sample(range(n), n)]
+    elif how == "other":
+        Xc = specs.elem_data(r, cls, n, d, style=r.choice(["dups", "coarse", "blobs", None]))
+    elif how == "shorter":
+        Xc = X[:r.randint(1, max(1, n - 1))].copy()
+    else:
+        Xc = X.copy()
+    sp = dict(case["mods"][level], rho=rho)
+    m = make(sp)
+    with quiet():
+        m.fit(Xc)
+    return m, sp, Xc
+
+
+def modules_list_edited(ctx, M, nmax):
+    """`modules` is a public list: after training, a user (or a second model built from the same list) replaces a level's
+    module by a separately trained one, appends a finer one, removes the finest or binds a new list -- all of which only
+    take effect at the next fit, which builds the layers anew.  Until then the hierarchy is the trained one: the whole
+    oracle (columns = the trained levels' own labels, nested, counts, map_deep) must hold unchanged and predict must
+    answer as before the edit.  The queued re-fit then has to give a hierarchy that satisfies the oracle again and
+    equals a fresh model of the new configuration (fit starts the modules anew)."""
+    cov = ctx.cov
+    for j in range(M):
+        r = gen.rng_for(ctx.seed, "C12-modlist", j)
+        case = gen_case(r, j, nmax, floats=j % 8 == 7)
+        kind, cls, n, k = case["kind"], case["cls"], case["n"], case["k"]
+        name = {"sup": "DeepARTMAP-sup", "unsup": "DeepARTMAP-unsup", "smart": "SMART"}[kind]
+        style = r.choice(["fit", "pfit", "pfit", "fit+pfit"])
+        calls = plan(r, n, style)
+        edit = EDITS[(j // 3) % len(EDITS)]
+        how = r.choice(CAND_DATA)
+        kmin = 1 if kind == "sup" else 2
+        if edit == "remove-finest" and k - 1 < kmin:
+            edit = "replace-finest"
+        if edit == "replace-via-second-host" and kind == "smart":
+            edit = "replace-finest"              # SMART builds its own list; it cannot be handed to a second model
+        pool = RHOS[case["classes"][-1]]
+        if edit == "append" and (k + (kind == "sup") >= 4 or not beyond(case["classes"][-1], case["mods"][-1]["rho"], pool)):
+            edit = "replace-finest"              # the property is about <= 4 levels / the ladder has no finer step left
+        level = k - 1
+        if edit == "replace-level":
+            level = r.randrange(k)
+            rho = case["mods"][level]["rho"]     # same place in the ladder, a separately trained module
+        elif edit == "append":
+            rho = r.choice(beyond(case["classes"][-1], case["mods"][-1]["rho"], pool))
+        elif edit == "remove-finest":
+            rho = None
+        else:
+            if len(set(case["classes"])) > 1:
+                rho = case["mods"][-1]["rho"]    # mixed classes share one ladder: keep the step
+            elif k == 1:
+                rho = r.choice(pool)
+            else:                                # any step beyond the level above (the present one is among them)
+                rho = r.choice(beyond(case["classes"][-1], case["mods"][-2]["rho"], pool))
+        rep = {"kind": kind, "spec": case["spec"], "Xs": [X.tolist() for X in case["Xs"]],
+               "y": None if case["y"] is None else case["y"].tolist(), "y_dtype": case.get("ydtype"), "mode": case["mode"],
+               "eps": case["eps"], "calls": calls, "edit": edit, "level": level}
+        key = ("modlist", kind, case["spec"], rep["Xs"], rep["y"], case["mode"], case["eps"], calls, edit, level, how, rho)
+        try:
+            est = build(case)
+            for op, a, b in calls:
+                do_fit(est, case, a, b, op)
+            trained = list(est.modules)
+            cand = None
+            if edit != "remove-finest":
+                cand, csp, Xc = candidate_module(r, case, level, rho, how)
+                rep["candidate"] = {"spec": csp, "trained_alone_on": Xc.tolist(), "data": how}
+        except Exception as e:
+            ctx.issue("violation", f"{name}({cls}).fit:{exc_enum(e)}", f"training raised {e!r} on valid data (calls {calls})", rep)
+            cov.case(key, False)
+            continue
+        if not oracle(ctx, est, case, n, f"{style}, before the modules list is edited", rep):
+            cov.case(key, False)
+            continue
+        L0 = np.asarray(est.labels_deep_).copy()
+        maps0 = [{int(p): as_int(q) for p, q in Ly.map.items()} for Ly in est.layers]
+        Xl = case["Xs"][-1]
+        Q = np.vstack([Xl[[r.randrange(n) for _ in range(min(n, 4))]],
+                       specs.elem_data(r, case["classes"][-1], 3, case["ds"][-1])])
+        try:
+            P0 = [np.asarray(p).copy() for p in do_predict(est, case, Q)]
+        except Exception:
+            P0 = None                                                 # reported by oracle_predict below
+        # ---- the edit (public attribute `modules`; no library call)
+        if edit in ("replace-finest", "replace-level"):
+            est.modules[level] = cand
+        elif edit == "append":
+            est.modules.append(cand)
+        elif edit == "rebind-list":
+            est.modules = list(est.modules[:-1]) + [cand]
+        elif edit == "remove-finest":
+            del est.modules[-1]
+        else:
+            with quiet():
+                other = DeepARTMAP(est.modules)                       # a second model built from the same list
+            other.modules[level] = cand
+        tag = f"{style}, then modules list edited ({edit}, level {level}), before the next fit"
+        # ---- the trained hierarchy is still what labels_deep_ / map_deep / predict describe
+        if oracle(ctx, est, case, n, tag, rep, trained=trained):
+            L1 = np.asarray(est.labels_deep_)
+            if L1.shape != L0.shape or not np.array_equal(L1, L0):
+                ctx.issue("violation", f"{name}:labels_deep_-changed-without-training",
+                          f"[{tag}] before {L0.T.tolist()} after {L1.T.tolist()}", rep)
+        maps1 = [{int(p): as_int(q) for p, q in Ly.map.items()} for Ly in est.layers]
+        if maps1 != maps0:
+            ctx.issue("violation", f"{name}:maps-changed-without-training", f"[{tag}] before {maps0} after {maps1}", rep)
+        P1 = oracle_predict(ctx, est, case, Q, L0, tag, dict(rep, Q=Q.tolist()))
+        if P0 is not None and P1 is not None and any(not np.array_equal(a, b) for a, b in zip(P0, P1)):
+            ctx.issue("violation", f"{name}:predict-changed-without-training",
+                      f"[{tag}] before {[p.tolist() for p in P0]} after {[p.tolist() for p in P1]}", dict(rep, Q=Q.tolist()))
+        observable = cand is None or len(cand.labels_) != n or not np.array_equal(
+            np.asarray(cand.labels_), np.asarray(trained[min(level, k - 1)].labels_))
+        cov.case(key, nontrivial=observable and len(set(L0[:, -1].tolist())) >= 2)
+        cov.hit("modules-list-edited")
+        cov.hit(f"modules-list-edited:{edit}")
+        cov.hit(f"modules-list-edited:kind={kind}")
+        cov.hit(f"modules-list-edited:trained-by={style}")
+        cov.hit(f"modules-list-edited:class={cls}")
+        if cand is not None:
+            cov.hit(f"modules-list-edited:candidate-data={how}")
+        if observable:
+            cov.hit("modules-list-edited:new-module-labels-differ-from-trained-level")
+        # ---- the queued re-fit: new configuration, layers built anew
+        mods2, classes2, ds2, Xs2 = list(case["mods"]), list(case["classes"]), list(case["ds"]), list(case["Xs"])
+        if edit == "append":
+            mods2.append(csp); classes2.append(classes2[-1]); ds2.append(ds2[-1]); Xs2.append(Xs2[-1].copy())
+        elif edit == "remove-finest":
+            mods2.pop(); classes2.pop(); ds2.pop(); Xs2.pop()
+        else:
+            mods2[level] = csp
+        if kind == "smart":
+            spec2 = dict(case["spec"], rho_values=[m["rho"] for m in mods2])
+        else:
+            spec2 = {"cls": "DeepARTMAP", "modules": mods2}
+        case2 = dict(case, k=len(mods2), mods=mods2, classes=classes2, ds=ds2, Xs=Xs2, spec=spec2,
+                     cls=classes2[0] if len(set(classes2)) == 1 else case["cls"])
+        rep2 = dict(rep, refit_spec=spec2)
+        try:
+            do_fit(est, case2, 0, n, "fit")
+            fresh = build(case2)
+            do_fit(fresh, case2, 0, n, "fit")
+        except Exception as e:
+            ctx.issue("violation", f"{name}({cls}).refit-after-modules-edit:{exc_enum(e)}",
+                      f"[{edit}] the re-fit raised {e!r} on valid data", rep2)
+            continue
+        if oracle(ctx, est, case2, n, f"re-fit after modules list edited ({edit}, level {level})", rep2):
+            if not same_snapshot(snapshot(est), snapshot(fresh)):
+                ctx.issue("violation", f"{name}:refit-after-modules-edit!=fresh-fit",
+                          f"[{edit}] re-fit {snapshot(est)['cols'].T.tolist()} fresh model of the same configuration "
+                          f"{snapshot(fresh)['cols'].T.tolist()}", rep2)
+        Q2 = Q
+        if edit == "remove-finest":                                   # queries for the level that is the finest now
+            Q2 = np.vstack([Xs2[-1][[r.randrange(n) for _ in range(min(n, 4))]],
+                            specs.elem_data(r, classes2[-1], 3, ds2[-1])])
+        oracle_predict(ctx, est, case2, Q2, np.asarray(est.labels_deep_), f"re-fit after {edit}", dict(rep2, Q=Q2.tolist()))
+        cov.hit("modules-list-edited:re-fit")
+        cov.hit(f"modules-list-edited:re-fit:levels={len(est.layers) + 1}")
+
+
 # ------------------------------------------------------------------ main loop
 
 
@@ -862,6 +1043,7 @@ def run(ctx):
                         "predict": None if P is None else [p.tolist() for p in P], "oracle_ok": ok})
     identifier_labels(ctx, ctx.scale(120, 1600), nmax)
     column_targets(ctx, ctx.scale(144, 1800), nmax)
+    modules_list_edited(ctx, ctx.scale(168, 2100), nmax)
     correspondence(ctx, ctx.scale(480, 6000), ctx.scale(12, 30))
     ctx.trusted.append("C12: rounding inside the level kernels is outside the theorems (the nesting argument is order-only "
                        "and kernel-independent; the tie runs exact kernels on grid data)")
